@@ -420,6 +420,99 @@ def rule_rank_threshold(F, R):
         R.ok("R-C04-10", "rank decision", "src/program/util.cpp:1", "%d rank-revealing decomposition(s), default threshold" % n)
 
 
+def rule_rows_kept(F, R):
+    """R-C04-11: the equality reduction replaces [A|b] by a matrix with exactly rank([A|b]) rows. Shape inference on the right-hand side of the
+    assignment to the reduced matrix in the file-local `reduce(matrix_t&)`: a product has the rows of its first factor, `X.block(i, j, p, q)`
+    / `topRows(p)` has p rows, `transpose()` exchanges rows and columns; the row count, followed through const locals, must be `rank()` of the
+    rank-revealing decomposition of the matrix (or of its transpose - same rank), and the early "nothing to reduce" return is taken exactly
+    when that rank equals the number of rows. Keeping `dimensionOfKernel()` rows (the number of dependent ones) drops genuine equalities whenever
+    fewer rows are redundant than independent."""
+    fs = [f for f in F.in_file("src/program/util.cpp") if f.name == "reduce" and f.body is not None and len(f.params) == 1]
+    if not fs:
+        R.incomplete("R-C04-11", "rows kept", "src/program/util.cpp:1", "the one-matrix reduce() was not found")
+        return
+    f = fs[0]
+    pA = f.params[0]
+    decomp = {}
+    for v in f.nodes():
+        if v["k"] == "var" and v.get("c"):
+            for c in walk(v["c"][0]):
+                if c["k"] == "call" and callee(c).split("::")[-1] in ("fullPivLu", "colPivHouseholderQr", "fullPivHouseholderQr", "completeOrthogonalDecomposition"):
+                    o = skip(obj(c))
+                    base = o
+                    while base is not None and base["k"] == "call" and callee(base).split("::")[-1] in ("transpose", "matrix", "eval") and base.get("c"):
+                        base = skip(obj(base))
+                    if base is not None and ref_decl(base) == pA["d"]:
+                        decomp[v["d"]] = v["n"]
+    if not decomp:
+        R.incomplete("R-C04-11", "rows kept", f.loc(), "no rank-revealing decomposition of the matrix to reduce was found")
+        return
+
+    def peel(n):
+        n = skip(n)
+        while n is not None and n["k"] in ("cast", "paren", "construct") and len(n.get("c", ())) == 1:
+            n = skip(n["c"][0])
+        return n
+
+    def through(n, depth=0):
+        n = peel(n)
+        if n is not None and n["k"] == "ref" and n.get("dk") == "var" and depth < 5 and n["d"] not in decomp:
+            v_, _ = find_var(f, n["d"])
+            if v_ is not None and v_.get("c"):
+                return through(v_["c"][0], depth + 1)
+        return n
+
+    def is_rank(n):
+        n = through(n)
+        return n is not None and n["k"] == "call" and callee(n).split("::")[-1] == "rank" and ref_decl(obj(n)) in decomp
+
+    def rows_of(n, transposed=False, depth=0):
+        """the expression giving the number of rows (columns if transposed) of a matrix expression, or None"""
+        n = through(n)
+        if n is None or depth > 12:
+            return None
+        if (n["k"] == "bin" and n["op"] == "*") or (n["k"] == "call" and n.get("ck") == "op" and n.get("op") == "*" and len(n.get("c", ())) == 2):
+            return rows_of(n["c"][1] if transposed else n["c"][0], transposed, depth + 1)
+        if n["k"] == "call" and n.get("ck") == "mem":
+            nm = callee(n).split("::")[-1]
+            a = args(n)
+            if nm == "transpose":
+                return rows_of(obj(n), not transposed, depth + 1)
+            if nm == "block" and len(a) == 4:
+                return a[3] if transposed else a[2]
+            if nm in ("topRows", "bottomRows") and len(a) == 1:
+                return rows_of(obj(n), True, depth + 1) if transposed else a[0]
+            if nm in ("leftCols", "rightCols") and len(a) == 1:
+                return a[0] if transposed else rows_of(obj(n), False, depth + 1)
+            if nm in ("matrix", "eval", "toDenseMatrix", "triangularView", "noalias"):
+                return rows_of(obj(n), transposed, depth + 1)
+        return None
+
+    asg = [x for x in f.nodes() if assignment(x) and assignment(x)[2] == "=" and ref_decl(peel(assignment(x)[0])) == pA["d"]]
+    if len(asg) != 1:
+        R.incomplete("R-C04-11", "rows kept", f.loc(), "expected one assignment of the reduced matrix")
+        return
+    rows = rows_of(assignment(asg[0])[1])
+    if rows is None:
+        R.incomplete("R-C04-11", "rows kept", f.loc(asg[0]), "cannot infer the number of rows of `%s`" % pp(assignment(asg[0])[1])[:80])
+    else:
+        R.check(is_rank(rows), "R-C04-11", "rows kept", f.loc(asg[0]), "the reduced [A|b] keeps rank() rows of the decomposition of [A|b]",
+                "the reduced [A|b] has `%s` rows, not the rank of [A|b]: whenever that differs from the rank, independent equality rows are dropped (or dependent ones kept) - "
+                "the solver then solves, and reports converged for, a different program than the one stated" % pp(through(rows))[:60])
+    # the early return: taken exactly when rank == rows
+    ifs = [x for x in f.nodes() if x["k"] == "if" and any(y["k"] == "return" for y in walk(x["c"][x["r"].index("then")]))]
+    oke = False
+    for x in ifs:
+        c = peel(x["c"][x["r"].index("cond")])
+        if c is not None and c["k"] == "bin" and c["op"] == "==":
+            l, r = c["c"]
+            for a_, b_ in ((l, r), (r, l)):
+                b2 = through(b_)
+                if is_rank(a_) and b2 is not None and b2["k"] == "call" and callee(b2).split("::")[-1] == "rows" and ref_decl(peel(obj(b2))) == pA["d"]:
+                    oke = True
+    R.check(oke, "R-C04-11", "nothing to reduce", f.loc(), "the reduction is skipped exactly when rank == rows", "the early return of the reduction is not `rank() == rows()`")
+
+
 def run(ctx):
     R = ctx.report
     F = ctx.facts(TUS)
@@ -428,6 +521,7 @@ def run(ctx):
     rule_reduce(F, R)
     rule_rows_before_reduction(F, R)
     rule_rank_threshold(F, R)
+    rule_rows_kept(F, R)
     rule_stated_rows(ctx.facts(TUS + ["src/program/benchmark.cpp"]), R)
     rule_guard(F, R)
     rule_kkt(F, R)
